@@ -281,6 +281,8 @@ class Recorder:
         elif isinstance(obj, tuple):
             for j, v in enumerate(obj):
                 self.mark(v, f"{label}({j})", depth + 1)
+        elif type(obj).__module__ in ("_io", "io"):
+            self.shared[i] = (obj, label)  # an in-memory stream kept in shared state (a buffer pool)
         else:
             d = getattr(obj, "__dict__", None)
             if isinstance(obj, (type,)) or callable(obj) and not hasattr(obj, "__dict__"):
@@ -400,6 +402,10 @@ class Recorder:
                 w = name in LIST_W or name in ("appendleft", "popleft", "extendleft", "rotate", "fromlist", "frombytes")
             elif isinstance(recv, set):
                 w = name in SET_W
+            elif type(recv).__module__ in ("_io", "io"):
+                w = name not in ("getvalue", "tell", "seekable", "readable", "writable", "getbuffer", "closed", "fileno", "isatty")
+                if w:
+                    self.ev("R", recv, None, recv, line)
             else:
                 w = False
             m = getattr(recv, name)
